@@ -30,9 +30,10 @@ func zzEthTx(from string, to *common.Address, gas uint64, gasPrice, value *big.I
 
 const zzEvmReverter = "0x00000000000000000000000000000000000000E3" // code: REVERT(0,0)
 const zzEvmSecond = "0x00000000000000000000000000000000000000E4"   // code: SSTORE(0,1); LOG0; STOP
+const zzEvmSuicider = "0x00000000000000000000000000000000000000E5" // code: SELFDESTRUCT(beneficiary E2); holds 30
 
 // zzEvmProgram assembles the callee: an optional nested call made FIRST (to a contract that always
-// reverts, or 5 wei sent to a plain account), then SSTORE(0,1) and LOG0, then one of four endings.
+// reverts, 5 wei sent to a plain account, or a contract that destroys itself), then SSTORE(0,1) and LOG0, then one of four endings.
 func zzEvmProgram(prefix, ending int) []byte {
 	var code []byte
 	call := func(value, to byte) {
@@ -44,6 +45,8 @@ func zzEvmProgram(prefix, ending int) []byte {
 		call(0, 0xE3)
 	case 2:
 		call(5, 0xE2)
+	case 3:
+		call(0, 0xE5) // the callee destroys itself: its balance goes to 0xE2
 	}
 	code = append(code, 0x60, 0x01, 0x60, 0x00, 0x55) // SSTORE(0, 1)
 	code = append(code, 0x60, 0x00, 0x60, 0x00, 0xa0) // LOG0(0, 0)
@@ -72,7 +75,7 @@ func ZZH_C07_eth() {
 	contract := zzAddr(zzEvmContract)
 	other := zzAddr(zzEvmOther)
 	sender := zzAddr(zzUsers[0])
-	prefix, ending := zz.Choice("prefix", 3), zz.Choice("ending", 4)
+	prefix, ending := zz.Choice("prefix", 4), zz.Choice("ending", 4)
 	program := zzEvmProgram(prefix, ending)
 	exec.ledger.SetCode(contract, program)
 	exec.ledger.SetCode(zzAddr(zzEvmReverter), []byte{0x60, 0x00, 0x60, 0x00, 0xfd})
@@ -80,6 +83,8 @@ func ZZH_C07_eth() {
 	exec.ledger.SetBalance(contract, big.NewInt(50))
 	exec.ledger.SetBalance(other, big.NewInt(9))
 	exec.ledger.SetCode(zzAddr(zzEvmSecond), zzEvmProgram(0, 0))
+	exec.ledger.SetCode(zzAddr(zzEvmSuicider), []byte{0x60, 0xE2, 0xff})
+	exec.ledger.SetBalance(zzAddr(zzEvmSuicider), big.NewInt(30))
 	exec.ledger.SetBalance(zzAddr(zzUsers[1]), big.NewInt(1000000000))
 	preSender := zzSetBalance(exec, zzUsers[0], "senderBal")
 	accounts, root := exec.ledger.FlushDirtyData()
@@ -106,6 +111,7 @@ func ZZH_C07_eth() {
 	sum := func() *big.Int {
 		s := new(big.Int).Add(zzBalance(exec, zzUsers[0]), zzBalance(exec, zzEvmContract))
 		s.Add(s, zzBalance(exec, zzEvmOther))
+		s.Add(s, zzBalance(exec, zzEvmSuicider))
 		s.Add(s, zzBalance(exec, zzAdmins[0]))
 		return s
 	}
@@ -140,6 +146,7 @@ func ZZH_C07_eth() {
 		zz.Assert("C07.eth.failed.storage-restored", ok && common.BytesToHash(v) == common.BytesToHash([]byte{7}))
 		zz.Assert("C07.eth.failed.contract-balance", zzBalance(exec, zzEvmContract).Cmp(big.NewInt(50)) == 0)
 		zz.Assert("C07.eth.failed.other-balance", zzBalance(exec, zzEvmOther).Cmp(big.NewInt(9)) == 0)
+		zz.Assert("C07.eth.failed.self-destructed-callee-keeps-its-balance", zzBalance(exec, zzEvmSuicider).Cmp(big.NewInt(30)) == 0)
 		zz.Assert("C07.eth.failed.sender-pays-exactly-the-fee", zz.BigEq(postSender, new(big.Int).Sub(preSender, fee)))
 		zz.Assert("C07.eth.failed.no-logs", len(receipt.EvmLogs) == 0)
 		zz.Assert("C07.eth.failed.no-delivery", len(exec.txsExecutor.GetInterchainCounter()) == 0)
